@@ -290,6 +290,9 @@ class QDict(QToken):
             if to_consume == 0:
                 break
             prev_char = char
+        if to_consume != 0:
+            # Unclosed bracket
+            return None, string
         return string[:i], string[i:]
 
 
@@ -352,6 +355,9 @@ class QList(QToken):
             if to_consume == 0:
                 break
             prev_char = char
+        if to_consume != 0:
+            # Unclosed bracket
+            return None, string
         return string[:i], string[i:]
 
 
